@@ -77,6 +77,11 @@ def permeance(src, v, units='kg/(m2*h*kPa)'):
 
 
 def membrane(src, experiments=None, sets=None):
+    from .symex import Opaque as _Op, Seq as _Seq
+    if isinstance(experiments, _Op):
+        # all experiments of the membrane (every component): a list of symbolic length whose elements are not interpreted here; the
+        # experiments of one component come from get_penetrant_data (by contract, at most as many)
+        experiments = Obj('IdealExperiments', dict(experiments=_Seq(var('n_all_experiments', 'I'), lambda i: _Op('experiment'), owner=EXT, tag=('all experiments',))), owner=EXT, tag='ideal experiments')
     return mk(src, 'Membrane', tag='membrane', name='mem', ideal_experiments=experiments, diffusion_curve_sets=sets, path=Opaque('path'))
 
 
